@@ -78,7 +78,7 @@ def run(ctx):
         select = lambda cat: [min(i for i, e in cat.items() if e["schema"] == replay["schema"])]
         formats = (replay["format"],)
     # the schema written after C13's own quantifier is part of every slice
-    batch = sc.run_batch(ctx, select=select, formats=formats, must=("equality", "equality-2"), deep=deep, extra=extra)
+    batch = sc.run_batch(ctx, select=select, formats=formats, must=("equality", "equality-2", "two-packages", "two-packages-reversed"), deep=deep, extra=extra)
     units = [u for u in batch.units.values() if u["status"] == "ok"]
     cmds, meta = [], {}
     kind_units = sorted([u for u in units if u["fmt"] == "kind"], key=lambda u: u["pkg"])
@@ -95,8 +95,8 @@ def run(ctx):
                 # depths (consecutive documents vary the same place), ...
                 k = len(chunks)
                 chunks += [base + rest[i::k] for i in range(k)]
-            if deep:
-                # ... and every group of documents that differ only in absent / null / empty collection in one matrix
+            if True:
+                # every group of documents that differ only in absent / null / empty collection in one matrix (both tiers)
                 groups = collections.defaultdict(list)
                 for c in cs:
                     groups[canon(c["py"])].append(c)
@@ -243,7 +243,7 @@ def run(ctx):
         "samples": samples or [{"note": "no sample drawn"}],
         "checker_cmd": "tlc SemanticsMC (index, cases); worker sem-gen; go build; driver eq; tlc SemanticsTrace",
     }
-    return ctx.finish("model_checking", cov, sc.COMMON_ASSUMPTIONS[:2] + [
+    return ctx.finish("model_checking", cov, sc.COMMON_ASSUMPTIONS[:2] + sc.variant_assumptions(batch) + [
         "values are those json.Unmarshal produces from the documents (valid ones and ones violating only a bound); "
         "Equals is called on two independently decoded values, so reflexivity is tested across distinct Go objects",
         "`same JSON` is JSON equality (numbers by value, key order irrelevant); `up to absent/null vs empty collection` is Semantics!Eq: "
